@@ -10,7 +10,11 @@ use std::collections::{BTreeMap, HashSet};
 use std::panic::{catch_unwind, AssertUnwindSafe};
 use std::time::Instant;
 
-pub const VERIF_DIR: &str = "/verif";
+/// root of the verification tree; `VCHECK_VERIF_DIR` redirects it (used only by the mutant-evaluation
+/// tooling, which runs a scratch copy of the engine against a scratch worktree)
+pub fn verif_dir() -> String {
+    std::env::var("VCHECK_VERIF_DIR").unwrap_or_else(|_| "/verif".to_string())
+}
 
 #[derive(Clone, Copy, PartialEq, Eq, Debug)]
 pub enum Tier {
@@ -398,7 +402,7 @@ impl Report {
         let wall = self.t0.elapsed().as_secs_f64();
         let mut nviol = 0;
         let mut seen: HashSet<String> = HashSet::new();
-        let _ = std::fs::create_dir_all(format!("{}/replays", VERIF_DIR));
+        let _ = std::fs::create_dir_all(format!("{}/replays", verif_dir()));
         for s in &self.sections {
             for v in &s.viols {
                 let key = format!("{}|{:x?}", v.op, v.args);
@@ -406,7 +410,7 @@ impl Report {
                     continue;
                 }
                 nviol += 1;
-                let path = format!("{}/replays/{}-{:016x}.json", VERIF_DIR, cfg.prop, hash_str(&key));
+                let path = format!("{}/replays/{}-{:016x}.json", verif_dir(), cfg.prop, hash_str(&key));
                 let mut j = v.to_json(&cfg);
                 j["section"] = json!(s.name);
                 let _ = std::fs::write(&path, serde_json::to_string_pretty(&j).unwrap());
@@ -469,8 +473,8 @@ impl Report {
             "wall_s": (wall * 1000.0).round() / 1000.0,
             "violations": nviol,
         });
-        let _ = std::fs::create_dir_all(format!("{}/evidence", VERIF_DIR));
-        std::fs::write(format!("{}/evidence/{}.json", VERIF_DIR, cfg.prop), serde_json::to_string_pretty(&ev).unwrap()).expect("write evidence");
+        let _ = std::fs::create_dir_all(format!("{}/evidence", verif_dir()));
+        std::fs::write(format!("{}/evidence/{}.json", verif_dir(), cfg.prop), serde_json::to_string_pretty(&ev).unwrap()).expect("write evidence");
         println!(
             "{} {} seed={} evaluations={} distinct_nontrivial={} violations={} wall={:.1}s",
             cfg.prop,
